@@ -299,7 +299,9 @@ def gen_world(rnd, valid_only=None):
     if layout == "nested" and rnd.random() < 0.15:
         add_file("%s/.capy" % rnd.choice(dirs))     # a file whose whole name is the suffix
     spec = {"files": files, "dirs": list(dirs) + [MODS + "/core", OUT], "raw": {}, "chains": [],
-            "status": rnd.randint(0, 60)}
+            "status": rnd.randint(0, 60),
+            "mod_dir_spelling": rnd.choice(["abs", "abs", "abs", "rel", "rel_slash", "dot_rel",
+                                            "abs_slash", "through_cwd"])}
     # things that exist but must not be importable
     add_file("%s/ext.capy" % OUT, garbage=rnd.random() < 0.5)
     add_file("%s/ext2.capy" % OUT2, garbage=rnd.random() < 0.5)
@@ -439,7 +441,12 @@ DIAG_RE = re.compile(r"^error: (.*)\n\s*--> at (.*):(\d+):(\d+)$", re.M)
 
 def run_world(bx, spec, world, want_run=True):
     model, reachable, rejected, edges, chains = materialise(bx, spec)
-    res = bx.compile(["build", "main.capy", "--mod-dir", bx.mods], world, trace=True, timeout=20)
+    # the module directory may be handed to the compiler in any spelling
+    sp = spec.get("mod_dir_spelling", "abs")
+    mod_dir = {"abs": bx.mods, "rel": "../" + MODS, "rel_slash": "../" + MODS + "/",
+               "dot_rel": "./../" + MODS, "abs_slash": bx.mods + "/",
+               "through_cwd": os.path.join(bx.proj, "..", MODS)}[sp]
+    res = bx.compile(["build", "main.capy", "--mod-dir", mod_dir], world, trace=True, timeout=20)
     out = res.stdout.decode(errors="replace")
     diags = [(m.group(1), m.group(2), int(m.group(3))) for m in DIAG_RE.finditer(out)]
     loose_errors = [l for l in out.splitlines() if l.startswith("error")]
